@@ -23,10 +23,14 @@ def run_unit(prop, unit, tier, seed, tmpdir):
         rc = p.returncode
     except subprocess.TimeoutExpired:
         err = "timeout after %ds" % unit.timeout; rc = -1
+    res = None
     if os.path.exists(out):
-        with open(out) as f:
-            res = json.load(f)
-    else:
+        try:
+            with open(out) as f:
+                res = json.load(f)
+        except ValueError:
+            err = "worker wrote an unreadable result file; stderr: " + err
+    if res is None:
         status = "undecided" if rc == -1 else "error"
         res = {"unit": unit.uid, "title": unit.title, "kind": unit.kind, "wall_s": round(time.time() - t0, 2), "functions": [], "assumptions": [], "samples": [], "stats": {},
                "results": [{"name": unit.uid + "/worker", "kind": "proof", "status": status, "backend": "-", "time": 0, "function": None, "detail": "worker rc=%s: %s" % (rc, err),
